@@ -142,7 +142,7 @@ def _normal_from(T, ext, d):
     else:
         raise Unsupported('dimension {}'.format(d))
     s = float(n @ ext)
-    if abs(s) < 1e-14:
+    if abs(s) <= 1e-12 * float(numpy.linalg.norm(n)) * float(numpy.linalg.norm(ext)):
         raise Unsupported('exterior vector is tangent')
     return n if s > 0 else -n
 
